@@ -309,6 +309,86 @@ def block_mark_history(args):
         shutil.rmtree(d, ignore_errors=True)
 
 
+def import_part(out, wd, seed):
+    """ids stamped by the transfer IMPORT: node A builds > 100 history entries (3 keys x 45 publishes), exports; a fresh node B
+    imports the file and then publishes itself; every history id on B is unique and B's own publishes continue above them"""
+    import procrig
+    from c18 import multipart
+    V1 = "/rnacos/api/console"
+    info = {}
+    a = b = None
+    try:
+        a = procrig.Node(os.path.join(wd, "imp"), 1, name="imp-a")
+        b = procrig.Node(os.path.join(wd, "imp"), 1, name="imp-b")
+        a.start()
+        b.start()
+        keys = ["imp%d" % i for i in range(3)]
+        n_pub = 45
+        for j in range(n_pub):
+            for k in keys:
+                r = a.post("/nacos/v1/cs/configs", form={"dataId": k, "group": "c19imp", "content": "%s-v%d" % (k, j)}, timeout=8)
+                if r.status != 200:
+                    raise common.Inconclusive("publish on node A refused: %s" % r.status)
+        ta, r = a.console_login("admin", "admin", wait=15)
+        tb, r2 = b.console_login("admin", "admin", wait=15)
+        if not ta or not tb:
+            raise common.Inconclusive("console login failed")
+        blob = a.console("GET", V1 + "/transfer/export", ta, timeout=30).body
+        if len(blob) < 1000:
+            raise common.Inconclusive("transfer export too small: %d bytes" % len(blob))
+        body, ct = multipart({}, "all.data", bytes(blob))
+        r = b.console("POST", V1 + "/transfer/import", tb, body=body, headers={"Content-Type": ct, "import-config": "1", "import-cache": "0", "import-mcp": "0", "import-naming": "0", "import-user": "0"}, timeout=60)
+        if r.status != 200:
+            raise common.Inconclusive("transfer import refused: %s %s" % (r.status, r.body[:120]))
+        # wait until the import has been applied, then B publishes itself
+        t0 = time.time()
+        while time.time() - t0 < 20:
+            g = b.get("/nacos/v1/cs/configs", params={"dataId": keys[-1], "group": "c19imp"}, timeout=5)
+            if g.status == 200 and g.text() == "%s-v%d" % (keys[-1], n_pub - 1):
+                break
+            time.sleep(0.3)
+        else:
+            raise common.Inconclusive("imported configs not served by node B within 20 s")
+        for j in range(6):
+            for k in keys:
+                b.post("/nacos/v1/cs/configs", form={"dataId": k, "group": "c19imp", "content": "%s-own%d" % (k, j)}, timeout=8)
+        hist = {}
+        for k in keys:
+            h = b.console("GET", V1 + "/config/history", tb, params={"dataId": k, "group": "c19imp", "pageNo": 1, "pageSize": 1000}, timeout=10)
+            j = (h.json() or {}).get("list") if h.status == 200 else None
+            if not isinstance(j, list):
+                raise common.Inconclusive("history of %s not readable on node B" % k)
+            hist[k] = [[it.get("id"), it.get("content")] for it in reversed(j)]
+        info["history_entries_on_b"] = {k: len(v) for k, v in hist.items()}
+        out.evaluations += sum(len(v) for v in hist.values())
+        seen = {}
+        bad = None
+        for k, h in hist.items():
+            for (i, c) in h:
+                if i in seen and bad is None:
+                    bad = ("import/duplicate-id/config-history", {"id": i, "entries": [seen[i], [k, c]]})
+                seen[i] = [k, c]
+            for (ia, ca), (ib, cb) in zip(h, h[1:]):
+                if ib <= ia and bad is None:
+                    bad = ("import/id-went-backwards/config-history", {"key": k, "earlier": [ia, ca], "later": [ib, cb]})
+        if sum(len(v) for v in hist.values()) < 100:
+            info["status"] = "inconclusive: fewer than 100 history entries arrived on node B"
+        elif bad:
+            out.violation(bad[0], dict(bad[1], imported_entries=n_pub * len(keys), own_publishes_after_import=18))
+        else:
+            out.shape("import/%d-history-entries-then-own-publishes" % (sum(len(v) for v in hist.values()) // 50 * 50))
+            info["status"] = "held"
+    except common.Inconclusive as e:
+        info["status"] = "inconclusive: %s" % str(e)[:300]
+    except OSError as e:
+        info["status"] = "inconclusive: %r" % e
+    finally:
+        for n in (a, b):
+            if n is not None:
+                n.kill()
+    out.extra["import_part"] = info
+
+
 def cluster_run(args):
     """several nodes drawing from the same named sequence (MCP server ids through each node's console API) and stamping
     configuration history ids while the leader is killed and restarted"""
@@ -517,6 +597,7 @@ def run(tier, seed):
             for sh in r["shapes"]:
                 out.shape(sh)
         out.extra["cluster_part"] = cagg
+        import_part(out, wd, seed)
         out.min_nontrivial = 5
         out.assumptions = ["gaps are allowed; ids of requests that were in flight when the node was killed are never observed and not counted",
                            "logical time = driver steps (one driver per node), so no wall-clock comparison is involved",
